@@ -60,6 +60,9 @@ type System struct {
 	background   []*backgroundCoroutine
 	shutdown     chan interface{}
 	shortCircuit chan interface{}
+
+	// index of the background coroutine considered first on the next tick
+	backgroundOffset int
 }
 
 func New(api api.API, aio aio.AIO, config *Config, metrics *metrics.Metrics) *System {
@@ -133,24 +136,28 @@ func (s *System) Tick(t int64) {
 		cqe.Callback(cqe.Completion, cqe.Error)
 	}
 
-	// add background coroutines
-	for _, bg := range s.background {
+	// add background coroutines, start with a different one on every tick so
+	// that a coroutine pool smaller than the number of background coroutines
+	// is shared fairly (otherwise the first ones starve the others forever)
+	for i := range s.background {
+		bg := s.background[(s.backgroundOffset+i)%len(s.background)]
 		if !s.api.Done() && (t-bg.last) >= int64(s.config.SignalTimeout.Milliseconds()) && (bg.promise == nil || bg.promise.Completed()) {
-			bg.last = t
-
 			tags := map[string]string{
 				"id":   fmt.Sprintf("%s:%d", bg.name, t),
 				"name": bg.name,
 			}
 
 			if p, ok := gocoro.Add(s.scheduler, bg.coroutine(s.config, tags)); ok {
+				bg.last = t
 				bg.promise = p
 				s.coroutineMetrics(p, tags)
 			} else {
+				// not started, try again on the next tick
 				slog.Warn("scheduler queue full", "size", s.config.CoroutineMaxSize)
 			}
 		}
 	}
+	s.backgroundOffset++
 
 	// dequeue sqes
 	for i, sqe := range s.api.DequeueSQE(s.config.SubmissionBatchSize) {
